@@ -109,6 +109,33 @@ deriving DecidableEq, Repr, Inhabited
 /-- `Config.Enabled` -/
 def Cfg.enabled (c : Cfg) : Bool := c.hmac || c.rsa || c.ecdsa || c.jwks.isSome
 
+/-- `auth.Config` (the flag/YAML form) as far as `Enabled` and `Load` read it: whether each
+key string is non-empty, and the key set the JWKS endpoint serves (`none`: no endpoint). -/
+structure RawCfg where
+  hmacSecret : Bool := false
+  rsaPEM : Bool := false
+  ecdsaPEM : Bool := false
+  jwksEndpoint : Option (List Jwk) := none
+  audience : String := ""
+  issuer : String := ""
+  disableDisconnectOnExpiry : Bool := false
+deriving DecidableEq, Repr, Inhabited
+
+/-- `Config.Enabled` on the raw configuration -/
+def RawCfg.enabled (c : RawCfg) : Bool :=
+  c.hmacSecret || c.rsaPEM || c.ecdsaPEM || c.jwksEndpoint.isSome
+
+/-- `Config.Load` followed by `NewJWTVerifier`'s reading of the result.  `Load` always sets
+`HMACSecretKey = []byte(c.HMACSecretKey)` — an **empty but non-nil** slice when no secret
+is configured — and `NewJWTVerifier` enables the HS* methods only for `len(...) > 0`, so the
+HMAC key is configured exactly when the secret string is non-empty.  `none`: `Load` fails
+(a JWKS endpoint together with any other key; PEM parse errors are not modelled). -/
+def RawCfg.load (c : RawCfg) : Option Cfg :=
+  if c.jwksEndpoint.isSome && (c.hmacSecret || c.rsaPEM || c.ecdsaPEM) then none
+  else some { hmac := c.hmacSecret, rsa := c.rsaPEM, ecdsa := c.ecdsaPEM, jwks := c.jwksEndpoint,
+              audience := c.audience, issuer := c.issuer,
+              disableDisconnectOnExpiry := c.disableDisconnectOnExpiry }
+
 /-- `auth.Token` -/
 structure Token where
   expiry : Option Int := none
@@ -275,6 +302,17 @@ def verifyMT (m : MTCfg) (now : Int) (tok : TokenFacts) (tenant : String) : VRes
       match verify tenant c now tok with
       | .ok t => .ok { t with tenant := tenant }
       | r => r
+
+/-- the verifier wiring of `server/server.go` for one port: no verifier at all
+(`some none`) unless the port's auth is enabled or it has tenants; otherwise the default
+verifier from `Load` and one verifier per tenant.  `none`: a `Load` failed (the node does
+not start). -/
+def wire (dflt : RawCfg) (tenants : List (String × RawCfg)) : Option (Option MTCfg) :=
+  if !dflt.enabled && tenants.isEmpty then some none
+  else
+    match dflt.load, tenants.mapM (fun p => p.2.load.map (fun c => (p.1, c))) with
+    | some d, some ts => some (some { dflt := d, tenants := ts })
+    | _, _ => none
 
 /-- `Token.EndpointPermitted` -/
 def endpointPermitted (t : Token) (endpointID : String) : Bool :=
